@@ -86,9 +86,30 @@ def check(case):
 
 
 def run(tier, seed, deep, hints):
+    from search.common import geometry_scan
+
+    n_max = 300000 if (tier == "quick" and not deep) else 30000000
+    hit, scanned, calls = geometry_scan(n_max)
+    if hit:
+        what = f"BloomFilter(est_elements={hit['est']}, false_positive_rate={hit['fpr']}) gets (hashes, bits) = {tuple(hit['got'])}; ceil(-n ln p / ln^2 2) bits and round(ln2 m/n) hashes with the documented constants are {tuple(hit['documented'])}"
+        return [{"what": what, "case": {"kind": "geometry", **hit}, "signature": {"structure": "bloom", "failure": "sizing departs from the documented rule"}}], {
+            "evaluations": scanned, "distinct_nontrivial": calls, "samples": [{"search_case": hit}]}
+    f, st = _run_random(tier, seed, deep, hints)
+    st["geometry_scan"] = {"est_values_scanned": scanned, "real_calls": calls}
+    st["evaluations"] += calls
+    return f, st
+
+
+def _run_random(tier, seed, deep, hints):
     return drive(tier, seed, deep, "search-C07", gen, check, None, lambda c, b: {"structure": c["kind"], "failure": "".join(ch for ch in b if not ch.isdigit())[:40]}, n_quick=400, n_thorough=8000)
 
 
 def replay(finding):
+    if finding["case"].get("kind") == "geometry":
+        from probables import BloomFilter
+
+        c = finding["case"]
+        got = BloomFilter._get_optimized_params(c["est"], c["fpr"])
+        return [got[1], got[2]] == c["documented"], f"est_elements={c['est']} fpr={c['fpr']}: library (hashes, bits) = {(got[1], got[2])}, documented rule {tuple(c['documented'])}"
     bad = check(finding["case"])
     return bad is None, f"{finding['case']} -> {bad or 'accuracy honoured'}"
